@@ -201,6 +201,14 @@ var c04Pairs = [][3]string{
 	{"X-A", "1", "10"},
 	{"X-A", "1", "1 " + "2"},
 	{"Accept-Charset", "utf-8", "iso-8859-1"},
+	// obs-text (bytes >= 0x80 that are not UTF-8) is legal in field values; an index format that cannot hold such bytes must not merge them
+	{"X-A", "Ren\xe9e", "Ren\xe8e"},
+	{"X-A", "Ren\xe9e", "Ren\ufffde"},
+	{"User-Agent", "caf\xe9/1", "caf\ufffd/1"},
+	{"X-A", "Ren\xe9e", "Ren%E9e"},
+	{"X-A", "Ren\xe9e", `Ren\xe9e`},
+	{"X-A", "Ren\xe9e", `"Ren\xe9e"`},
+	{"X-A", "\xff", "\xfe"},
 	{"If-Modified-Since", "Mon, 01 Jan 1990 00:00:00 GMT", "Tue, 02 Jan 1990 00:00:00 GMT"},
 }
 
